@@ -24,8 +24,7 @@ class C08(Prop):
                    'testtools.TestResult / TestByTestResult are observed through subclasses that log every call before the upcall',
                    'CPython semantics of getattr probing, try/except TypeError protocol negotiation, dict order, str.strip (whitespace table in '
                    'TTV/Model/Result.lean isSpace) and sorted() on str are modelled, not verified',
-                   'exceptions escaping a result are not modelled: inputs on which the real code raises are outside the domain (generated only for the '
-                   'known finding tbtEmptyDetails)',
+                   'exceptions escaping a result are not modelled: inputs on which the real code raises are outside the domain',
                    'Content objects are reduced to text (decoded) / non-text (rendered content type) / traceback']
 
     manifest = {
@@ -35,11 +34,9 @@ class C08(Prop):
                 'in order, degraded only by the fixed table (skip, xfail -> success on 2.6; unexpected success -> failure; details -> '
                 '_StringException / reason); the degradation never makes a failing outcome passing; _details_to_str (modelled exactly over '
                 'code points) contains every non-empty text detail; TestByTestResult calls back once per stopTest with test, status word, '
-                'details, times and tags.  Proved outside the known finding tbtEmptyDetails (TestByTestResult raises on a failing outcome with '
-                'an empty details dict).  The hand-written model is tied to the code by a differential check (random + bounded-exhaustive '
+                'details (an empty details dict is details), times and tags.  The hand-written model is tied to the code by a differential check (random + bounded-exhaustive '
                 'graphs x histories) and by the extracted status-word table.',
-        'note': 'trusted: Lean kernel, the model TTV/Model/Result.lean, the harness (own recording results of the old flavours); partial: finding '
-                'tbtEmptyDetails is excluded from holds_model_partial / C08_tbt_partial; exceptions escaping a result, getattr / TypeError protocol '
+        'note': 'trusted: Lean kernel, the model TTV/Model/Result.lean, the harness (own recording results of the old flavours); exceptions escaping a result, getattr / TypeError protocol '
                 'negotiation and str.strip are modelled, not verified',
         'technique': 'Lean 4 proofs by induction on the adapter tree (state type computed from the shape) and on the call history; executable '
                      'spec shared with a differential correspondence check',
@@ -108,8 +105,6 @@ class C08(Prop):
                 t = tid[0] = (tid[0] + rng.choice([0, 1, 1, 2, 3])) % 12
                 kind = rng.choice(R.KINDS)
                 arg = R.gen_arg(rng, kind)
-                if has_tbt and kind in ('error', 'failure', 'xfail') and arg and arg[0] == 'details' and not arg[1] and rng.random() < 0.9:
-                    arg = ['details', R.gen_details(rng, allow_empty=False)]   # finding tbtEmptyDetails: only now and then
                 h.append(['startTest', t])
                 noise(0.3, True)
                 h.append(['add', kind, t, arg])
